@@ -33,6 +33,8 @@ func cmdFieldsExtra(args []string) {
 		{`"ok"`, true, "ok", false}, {`""`, true, "", false}, {`"a b: c"`, true, "a b: c", false}, {`"\u0000"`, true, "\x00", false},
 		{`"a\nb"`, false, "", true}, {`"a\u000ab"`, false, "", true}, {`"a\rb"`, false, "", true}, {`"\u000d"`, false, "", true}, {`"x\r\ndata: y"`, false, "", true},
 		{`"a\\nb"`, true, `a\nb`, false}, {`"unterminated`, false, "", true},
+		// byte slices that are no JSON at all (a raw line break inside the quotes), handed to UnmarshalJSON directly: an error, nothing set
+		{"\"a\nb\"", false, "", true}, {"\"a\rb\"", false, "", true}, {"\"\n\"", false, "", true}, {"\"x\r\ndata: y\"", false, "", true},
 	}
 	check := func(kind, what string, isSet bool, val string, err error, wantSet bool, wantVal string, wantErr bool) {
 		res.eval(1)
